@@ -128,7 +128,7 @@ NUMS = [0, 1, 2, 3, 7, -4, 10, 100, 0.5, 2.25, -1.5, 1e-7, 12345.678,
         0.30000000000000004, 1 / 3, 1.0, 2.0]
 EXTREME = [1e308, -0.0, 5e-324, 2 ** 70, -1e308]
 TEXTS = ['abc', 'Hello', 'x', 'héllo wörld', '12', '3.5', 'TRUE',
-         'a"b', "it's", '日本']
+         'a"b', "it's", '日本', 'long ' * 70, '0', '1e3', ' 7 ', 'False']
 DATES = [datetime.datetime(2020, 3, 15), datetime.datetime(1999, 12, 31, 12),
          datetime.datetime(1900, 3, 1),
          datetime.datetime(2021, 5, 17, 13, 45, 12, 345678),
@@ -157,9 +157,29 @@ T_RANGE = [
 ]
 
 
+def respell(rng, text):
+    """Legal spelling variations that do not change the meaning: blanks
+    around operators and after commas, function names in lower / mixed
+    case.  (Quoted text is left alone.)"""
+    import re
+    if '"' in text:
+        return text
+    k = rng.random()
+    if k < 0.4:
+        text = re.sub(r'([A-Za-z_]+)\(', lambda m: rng.choice(
+            [m.group(1).lower(), m.group(1).title()]) + '(', text)
+    elif k < 0.8:
+        text = re.sub(r'(?<=[A-Za-z0-9)])([+*/&<>=]+)(?=[A-Za-z0-9(])',
+                      r' \1 ', text)
+        text = text.replace(',', ', ')
+    else:
+        text = ' ' + text
+    return text
+
+
 def gen_world(rng, n_inputs=None, n_formulas=None, sheets=None, names=True,
               stale=True, userfuncs=False, extremes=False, max_depth=5,
-              range_names=False, absolute=None, sparse=None):
+              range_names=False, absolute=None, sparse=None, spelling=None):
     """Acyclic model: level-0 constants, then formulas over lower cells.
 
     Returns a JSON-able world:
@@ -172,6 +192,8 @@ def gen_world(rng, n_inputs=None, n_formulas=None, sheets=None, names=True,
         absolute = rng.random() < 0.12
     if sparse is None:
         sparse = rng.random() < 0.15
+    if spelling is None:
+        spelling = rng.random() < 0.15
     sheet_list = SHEETS[:nsheets]
     W = {s: rng.choice([1, 2, 2, 3, 4]) for s in sheet_list}
     count = {s: 0 for s in sheet_list}
@@ -363,7 +385,10 @@ def gen_world(rng, n_inputs=None, n_formulas=None, sheets=None, names=True,
                 relative = False
             else:
                 coords.extend(m.split('!')[1] for m in rng_ref[1])
-        cells[fa] = '=' + tpl.format(**sub)
+        text = tpl.format(**sub)
+        if spelling and rng.random() < 0.5:
+            text = respell(rng, text)
+        cells[fa] = '=' + text
         dl = [u for u in dict.fromkeys(used)]
         deps[fa] = dl
         sd = soft.pop('pending', [])
